@@ -524,6 +524,9 @@ func (streamSetSelf *StreamSetDef[T, R]) Union(input *StreamSetDef[T, R]) *Strea
 			}
 			v = v.Extend(v2)
 			result.MapSetDef[k] = v
+		} else if ok && v != nil {
+			// The other side has nothing under this key: keep our Stream (Merge took the other one)
+			result.MapSetDef[k] = v
 		}
 	}
 
